@@ -374,7 +374,7 @@ pub fn run(ctx: &Ctx, rep: &Report) -> Meta {
             }
             let n = 1 + (crate::gen::splitmix(&mut st) % 3) as usize;
             let hm = 1 + (crate::gen::splitmix(&mut st) as usize % ((1 << n) - 1)) as u8;
-            let c = Case { key: crate::gen::splitmix(&mut st) as u16, n, hidden_mask: hm, kind: [2u8, 0, 2, 1][k % 4], seed: crate::gen::splitmix(&mut st) as u32, small_mask: if k % 5 == 4 { hm } else { 0 }, hidden_list: vec![], spare: (k % 3) as u8 };
+            let c = Case { key: crate::gen::splitmix(&mut st) as u16, n, hidden_mask: hm, kind: [2u8, 0, 2, 1][k % 4], seed: crate::gen::splitmix(&mut st) as u32, small_mask: if k % 5 == 4 { hm } else { 0 }, hidden_list: vec![], spare: (k % 3) as u8, eq_hidden: k % 7 == 3 };
             one(rep, "long-lived-prover-thread", &c)?;
         }
         rep.class_n("proofs-generated-on-long-lived-threads", per_thread as u64);
@@ -399,8 +399,8 @@ pub fn run(ctx: &Ctx, rep: &Report) -> Meta {
             };
             // one signature proof and one issuance proof for certain, then generated ones
             let fixed2 = [
-                Case { key: 0, n: 2, hidden_mask: 0b01, kind: 2, seed: (ctx.seed as u32) ^ 0x2048, small_mask: 0, hidden_list: vec![], spare: 0 },
-                Case { key: 0, n: 2, hidden_mask: 0b10, kind: 0, seed: (ctx.seed as u32) ^ 0x2049, small_mask: 0, hidden_list: vec![], spare: 1 },
+                Case { key: 0, n: 2, hidden_mask: 0b01, kind: 2, seed: (ctx.seed as u32) ^ 0x2048, small_mask: 0, hidden_list: vec![], spare: 0, eq_hidden: false },
+                Case { key: 0, n: 2, hidden_mask: 0b10, kind: 0, seed: (ctx.seed as u32) ^ 0x2049, small_mask: 0, hidden_list: vec![], spare: 1, eq_hidden: false },
             ];
             par_items(ctx, rep, &ckn, &fixed2, |c| judge(c));
             run_cases(ctx, rep, &ckn, ncases, 5, || c17::strat(3), |c| judge(c));
